@@ -388,6 +388,15 @@ def run_special(u, ctx):
             for fmt in ('plain', 'gz'):
                 exec_case({'kind': 'file', 'fmt': fmt, 'entries': [e]}, ctx)
         ctx.count('long_line_entries', len(longs))
+    # Manifests with many entries (any internal batching of the writer has to keep
+    # one entry per line at every boundary)
+    for n in (1023, 1024, 1025, 2048, 2049, 4097, 10001):
+        many = [{'tag': 'DATA', 'path': 'f%05d' % i, 'size': i, 'sums': {'MD5': 'ab' * 16}}
+                for i in range(n)]
+        exec_case({'kind': 'rand', 'entries': many}, ctx)
+        exec_case({'kind': 'file', 'fmt': 'plain', 'entries': many}, ctx)
+        exec_case({'kind': 'file', 'fmt': 'xz', 'entries': many}, ctx)
+        ctx.count('many_entry_manifests')
 
 
 def run_interleaved(u, ctx):
